@@ -255,6 +255,27 @@ def directed(rng):
                                                       "grid_connector_id": gid, "max_power": js["components"]["grid_connectors"][gid]["max_power"] / 2})
         for st in ("greedy", "balanced", "distributed", "balanced_market", "peak_shaving"):
             out.append((js, st, {}))
+    # D5: schedule strategy, stationary battery, fixed load, scheduled target above a limit lowered by the operator; vehicles full
+    for _ in range(2):
+        js = scen.gen_scenario(rng, n_gc=1, n_veh=1, features={"battery", "fixed"}, steps=8, interval=60)
+        gid = list(js["components"]["grid_connectors"])[0]
+        start = datetime.datetime.fromisoformat(js["scenario"]["start_time"])
+        rating = js["components"]["grid_connectors"][gid]["max_power"]
+        for b in js["components"]["batteries"].values():
+            b.update({"soc": 0.2, "capacity": 500, "charging_curve": [[0, rating], [1, rating]]})
+        for v in js["components"]["vehicles"].values():
+            v.update({"soc": 1.0, "desired_soc": 0.5})
+        for e in js["events"]["vehicle_events"]:
+            if e["event_type"] == "arrival":
+                e["update"].update({"soc_delta": 0, "desired_soc": 0.5})
+        for f in js["events"]["fixed_load"].values():
+            f["values"] = [round(rating * rng.choice([0.1, 0.2, 0.3]), 2) for _ in f["values"]]
+        js["events"]["grid_operator_signals"] = [
+            {"signal_time": scen.iso(start), "start_time": scen.iso(start), "grid_connector_id": gid, "target": round(rating * 0.8, 2), "window": True},
+            {"signal_time": scen.iso(start), "start_time": scen.iso(start + datetime.timedelta(hours=rng.choice([2, 3]))), "grid_connector_id": gid,
+             "max_power": round(rating * 0.5, 2)}]
+        js["scenario"]["core_standing_time"] = {"times": [{"start": [22, 0], "end": [5, 0]}], "no_drive_days": [6]}
+        out.append((js, "schedule", {"LOAD_STRAT": rng.choice(["collective", "individual"]), "ALLOW_NEGATIVE_SOC": True}))
     return out
 
 
